@@ -62,7 +62,9 @@ def run(tier, seed, mutant=None, only_validate=False):
                     nt.add(r["script"])
             else:
                 e = r["ev"][got[0] - 1]
-                why = {"End": "input has stopped and the consumer is free, but the most recently pushed element never came out "
+                why = {"GaveUp": "input has stopped and the consumer is free, but the most recently pushed element did not come out within "
+                                 "10 s (the forwarding coroutine was not woken)",
+                       "End": "input has stopped and the consumer is free, but the most recently pushed element never came out "
                               "(the forwarding coroutine was not woken)",
                        "Deliver": "an element was handed on twice / out of order / without having been pushed",
                        "PushRaised": "the push raised"}.get(e["ev"], e["ev"])
